@@ -130,6 +130,7 @@ static void gen_just_ops(Rng &r, std::vector<Op> &ops, unsigned n, i64 seg) {
         else {
             static const i64 widths[] = {-16, 0, 16, 16 * 50, 16 * 107, 16 * 1000, 16 * 100000, 1, 16 * 5000000ll};
             i64 w = r.chance(2, 3) ? widths[r.below(9)] : i64(r.below(16 * 3000));
+            if (r.chance(1, 12)) w = -1000000 - i64(r.below(8));      // extreme widths (1e30 .. FLT_MAX, 1e-30, 2^48 ...)
             i64 fs = r.chance(1, 2) ? -1 : i64(r.below(200)), ls = r.chance(1, 2) ? -1 : i64(r.below(200));
             ops.push_back(mk("justify", {seg, i64(r.below(8)), w, i64(r.below(4)), fs, ls, r.chance(1, 2) ? 0 : -1, i64(r.below(2))}));
         }
